@@ -167,4 +167,99 @@ def judgeChain (n : Nat) (craq : Bool) (steps : List Step) (q : Bool) : Option S
 def judgeML (steps : List Step) (q : Bool) : Option String :=
   convergence "ml" steps q
 
+/-! ### multi-leader with a merging resolver: "anti-entropy having run"
+
+With a resolver that *merges* concurrent versions, delivering every `Replicate` is not enough for
+agreement (a replica that merged an overwritten version keeps its items; `mlm_replicate_order_matters`
+in the proofs), so the property's parenthesis matters: the convergence clause is judged when the run
+is quiescent **and anti-entropy has run**, read as: after the last client write and the last
+`Replicate` handler step, the anti-entropy *requests* alone carry every leader's state to every
+leader.  A request conveys what its sender knew at the tick (`_handle_anti_entropy` snapshots
+`_versions` there) and has been merged by the receiver when its handler finishes; responses are not
+counted (they only add exchanges).  Everything is read off the delivery log: handlers are numbered in
+the order their starting events appear, `r pid seg` lines refer back to them, and — all messages
+being delivered at quiescence — the k-th tick's request is the k-th `AntiEntropyRequest` in message-id
+order (`Network.send` ids grow in send order). -/
+
+/-- kind of handler a delivery starts -/
+def startKind (act : List String) : Option String :=
+  match act with
+  | "cw" :: _ => some "w"
+  | "cr" :: _ => some "rd"
+  | "ae" :: _ => some "ae"
+  | "d" :: _ :: _ :: ty :: _ =>
+    some (if ty == "Replicate" then "repl" else if ty == "AntiEntropyRequest" then "aereq"
+          else if ty == "AntiEntropyResponse" then "aeresp" else "other")
+  | _ => none
+
+/-- `(pid, kind)` of the handler every step belongs to -/
+def stepProcs (steps : List Step) : List (Nat × String) :=
+  let r := steps.foldl (fun (acc : Array String × Array (Nat × String)) s =>
+    match startKind s.act with
+    | some k => (acc.1.push k, acc.2.push (acc.1.size, k))
+    | none =>
+      match s.act with
+      | ["r", pid, _] => (acc.1, acc.2.push (natD pid, acc.1.getD (natD pid) "?"))
+      | _ => (acc.1, acc.2.push (0, "?"))) ((#[], #[]) : Array String × Array (Nat × String))
+  r.2.toList
+
+/-- first index after the last step of a client-write or `Replicate` handler -/
+def settleIdx (ps : List (Nat × String)) : Nat :=
+  (ps.zip (List.range ps.length)).foldl
+    (fun acc x => if x.1.2 == "w" || x.1.2 == "repl" then x.2 + 1 else acc) 0
+
+def insertBy (x : Nat × Nat × Nat) : List (Nat × Nat × Nat) → List (Nat × Nat × Nat)
+  | [] => [x]
+  | y :: ys => if x.1 ≤ y.1 then x :: y :: ys else y :: insertBy x ys
+
+/-- anti-entropy ticks `(step, node, peer)` in delivery order -/
+def aeTicks (steps : List Step) : List (Nat × Nat × Nat) :=
+  (steps.zip (List.range steps.length)).filterMap fun x =>
+    match x.1.act with
+    | ["ae", i, j] => some (x.2, natD i, natD j)
+    | _ => none
+
+/-- delivered requests `(mid, dst, pid)` in message-id order -/
+def aeRequests (steps : List Step) (ps : List (Nat × String)) : List (Nat × Nat × Nat) :=
+  ((steps.zip ps).filterMap fun x =>
+    match x.1.act with
+    | "d" :: mid :: dst :: "AntiEntropyRequest" :: _ => some (natD mid, natD dst, x.2.1)
+    | _ => none).foldl (fun acc r => insertBy r acc) []
+
+/-- index of the last step of handler `pid` -/
+def lastStepOf (ps : List (Nat × String)) (pid : Nat) : Nat :=
+  (ps.zip (List.range ps.length)).foldl (fun acc x => if x.1.1 == pid then x.2 else acc) 0
+
+def addAll (a b : List Nat) : List Nat := b.foldl (fun acc x => if acc.contains x then acc else x :: acc) a
+
+/-- do the anti-entropy requests ticked after the writes settled carry every leader's state to
+    every leader? -/
+def gossipComplete (n : Nat) (steps : List Step) : Bool :=
+  let ps := stepProcs steps
+  let p := settleIdx ps
+  let ticks := aeTicks steps
+  let reqs := aeRequests steps ps
+  if ticks.length != reqs.length then false else
+  let pairs := ticks.zip reqs
+  if pairs.any (fun x => x.1.2.2 != x.2.2.1) then false else
+  -- (tick step, sender, finish step, receiver)
+  let evs := pairs.map fun x => (x.1.1, x.1.2.1, lastStepOf ps x.2.2.2, x.2.2.1)
+  let k0 : Array (List Nat) := (Array.range n).map fun i => [i]
+  let snap0 : Array (List Nat) := (Array.range evs.length).map fun _ => []
+  let evi := evs.zip (List.range evs.length)
+  let r := (List.range steps.length).foldl (fun (acc : Array (List Nat) × Array (List Nat)) idx =>
+    evi.foldl (fun acc e =>
+      let acc := if e.1.1 == idx && idx ≥ p then (acc.1, acc.2.setIfInBounds e.2 (acc.1.getD e.1.2.1 [])) else acc
+      if e.1.2.2.1 == idx then (acc.1.setIfInBounds e.1.2.2.2 (addAll (acc.1.getD e.1.2.2.2 []) (acc.2.getD e.2 [])), acc.2)
+      else acc) acc) (k0, snap0)
+  (List.range n).all fun i => (List.range n).all fun j => (r.1.getD i []).contains j
+
+/-- multi-leader with `n` leaders; `merging`: the resolver combines concurrent versions -/
+def judgeMLn (n : Nat) (merging : Bool) (steps : List Step) (q : Bool) : Option String :=
+  if merging then
+    if q && gossipComplete n steps && !(converged (finalStores steps)) then
+      some "ml/convergence/replicas-differ-after-anti-entropy"
+    else none
+  else convergence "ml" steps q
+
 end HappyModel.C17.Spec
